@@ -12,4 +12,5 @@ MCSpellings ==
   IF PART = 1
   THEN {"X-A", "x-a", "X-B", "Connection", IF Norm THEN "content-length" ELSE "Content-Length", "Transfer-Encoding"}
   ELSE {"X-A", "Content-Type", "Trailer", "Host", "Server", "Cookie", "Set-Cookie", "X-B"}
+MCTyped == IF PART = 1 THEN {"framing"} ELSE {"cookie", "slot"}
 =============================================================================
